@@ -41,6 +41,10 @@ Fixpoint tfilter (drop : N -> bool) (t : tree) : tree :=
 
 Definition unroot (k : N) (d : N -> bool) : N -> bool := fun j => negb (N.eqb j k) && d j.
 
+(* the tree a filtered deepcopy of the subtree s represents: s renamed to the fresh identities k, k+1, ... (preorder,
+   Heap.v `ren`), then filtered *)
+Definition fcopy (s : tree) (k : N) (d : N -> bool) : tree := tfilter (unroot k d) (t_map (ren (ids s) k) s).
+
 (* outcome of one repair; the heap is the state in which the cleaner (or, after an exception, the catch-all of
    TreeCleaner.clean) goes on *)
 Inductive rres :=
